@@ -51,6 +51,8 @@ InDomain(a, x) == IsDef(x) /\ x.n # 0 /\
 \* ---------------------------------------------------------------- trees
 Ci(v) == [op |-> "ci", name |-> v]
 Cn(n, d) == [op |-> "cn", n |-> n, d |-> d]
+\* the same number written another way: "upperE" 3E0, "lowerE" 3e0, "plusExp" 3e+0, "enot" <cn type="e-notation">3<sep/>0</cn>, "dot" 3.
+CnF(n, d, form) == [op |-> "cn", n |-> n, d |-> d, form |-> form]
 N(op, args) == [op |-> op, args |-> args]
 Pw(pieces, other) == [op |-> "piecewise", pieces |-> pieces, otherwise |-> other]       \* pieces: <<[val, cond]>>; otherwise: tree or Cn(0,0) for "absent"
 Qual(op, q, x) == [op |-> op, qual |-> q, args |-> <<x>>]                               \* root with degree, log with logbase
